@@ -80,7 +80,10 @@ class FunctionInteractionsUtils(object):
         if len(paths) > len(non_empty_paths) > 0 and current_prefix is not None:
             res.append(current_prefix)
 
-        splits = [DDSPathUtils.split(p) for p in non_empty_paths]
+        # groupby only groups consecutive elements: the paths must be sorted by their first segment
+        splits = sorted(
+            [DDSPathUtils.split(p) for p in non_empty_paths], key=lambda x: x[0]
+        )
         # _logger.debug("non_terminal splits: %s", splits)
         groups = itertools.groupby(splits, lambda x: x[0])
         for (key, l) in groups:
